@@ -105,12 +105,12 @@ set_option maxRecDepth 100000 in
 set_option maxHeartbeats 8000000 in
 /-- **the connectivity loop depends on the symbol reader only through the symbols it delivers** (standard traversal;
     the attribute seam decoders are not used by `connLoop`) -/
-theorem connLoop_sym_indep (ci : ConnIn) (l : Bool) (sym sym' : BitReader) (sf : RAnsBitDec) (sfb : BitReader)
+theorem connMain_sym_indep (ci : ConnIn) (l : Bool) (sym sym' : BitReader) (sf : RAnsBitDec) (sfb : BitReader)
     (seams seams' : Array RAnsBitDec) (val : Array Nat) (cs : Array (Array Nat)) (cc : Array Int) (pd : RAnsBitDec)
-    (hrd : ∀ i, i < ci.numSymbols → (decodeSymbolStd (RdS sym i)).1 = (decodeSymbolStd (RdS sym' i)).1) (co : ConnOut)
-    (h : connLoop ci ⟨0, l, sym', sf, sfb, seams', val, cs, cc, pd⟩ = .ok co) :
-    connLoop ci ⟨0, l, sym, sf, sfb, seams, val, cs, cc, pd⟩ = .ok co := by
-  unfold connLoop at h ⊢
+    (hrd : ∀ i, i < ci.numSymbols → (decodeSymbolStd (RdS sym i)).1 = (decodeSymbolStd (RdS sym' i)).1) (co : ConnMain)
+    (h : connMain ci ⟨0, l, sym', sf, sfb, seams', val, cs, cc, pd⟩ = .ok co) :
+    connMain ci ⟨0, l, sym, sf, sfb, seams, val, cs, cc, pd⟩ = .ok co := by
+  unfold connMain at h ⊢
   simp only [show ((0 : Nat) == 1) = false from rfl, Trav.valence, show ((0 : Nat) == 2) = false from rfl,
     Trav.tracksValences, show ((0 : Nat) != 0) = false from rfl, Bool.false_eq_true, ↓reduceIte] at h ⊢
   generalize hF : (fun (symbolId : Nat) (r : CSt) => _) = F at h ⊢
@@ -153,6 +153,25 @@ theorem connLoop_sym_indep (ci : ConnIn) (l : Bool) (sym sym' : BitReader) (sf :
       exact (congrArg (fun s : CSt => s.2.2.2.2.2.2.2.2.2.1) e4).symm
   · rintro s s' ⟨r, rfl⟩ ht
     exact ht
+
+/-- **the connectivity loop depends on the symbol reader only through the symbols it delivers** (standard traversal;
+    the attribute seam decoders are not used by `connLoop`) -/
+theorem connLoop_sym_indep (ci : ConnIn) (l : Bool) (sym sym' : BitReader) (sf : RAnsBitDec) (sfb : BitReader)
+    (seams seams' : Array RAnsBitDec) (val : Array Nat) (cs : Array (Array Nat)) (cc : Array Int) (pd : RAnsBitDec)
+    (hrd : ∀ i, i < ci.numSymbols → (decodeSymbolStd (RdS sym i)).1 = (decodeSymbolStd (RdS sym' i)).1) (co : ConnOut)
+    (h : connLoop ci ⟨0, l, sym', sf, sfb, seams', val, cs, cc, pd⟩ = .ok co) :
+    connLoop ci ⟨0, l, sym, sf, sfb, seams, val, cs, cc, pd⟩ = .ok co := by
+  unfold connLoop at h ⊢
+  obtain ⟨m, hm, h⟩ := (bind_ok_iff _ _ _).mp h
+  rw [connMain_sym_indep ci l sym sym' sf sfb seams seams' val cs cc pd hrd m hm]
+  have e : connStart ci ⟨0, l, sym, sf, sfb, seams, val, cs, cc, pd⟩ m =
+      connStart ci ⟨0, l, sym', sf, sfb, seams', val, cs, cc, pd⟩ m := by
+    unfold connStart
+    rfl
+  show (connStart ci ⟨0, l, sym, sf, sfb, seams, val, cs, cc, pd⟩ m >>= fun s => connCompact ci m s) = _
+  rw [e]
+  exact h
+
 theorem readStd_agree : ∀ (n : Nat) (r r' : BitReader), (readStdSymbols n r).1 = (readStdSymbols n r').1 →
     ∀ i, i < n → (decodeSymbolStd (RdS r i)).1 = (decodeSymbolStd (RdS r' i)).1 := by
   intro n
